@@ -1,7 +1,8 @@
 /-!
 # Spec.Sync — what a sync session must deliver (storage independent)
 
-Commands are natural numbers (ids); `par c` lists the parents of command `c` in the one DAG both
+Commands are elements of any type with decidable equality (ids, or locations in the
+responder's store); `par c` lists the parents of command `c` in the one DAG both
 replicas' graphs are sub-DAGs of (same id ⇒ same command ⇒ same parents).  A replica's committed
 graph is a parents-closed finite set of ids, given as a list.
 
@@ -17,36 +18,38 @@ are stated for `Outcome`.
 -/
 namespace AranyaV.Spec.Sync
 
+variable {α : Type} [DecidableEq α]
+
 /-- ancestor-or-self in the DAG given by `par` -/
-inductive AncS (par : Nat → List Nat) : Nat → Nat → Prop
-  | refl (a : Nat) : AncS par a a
-  | step {a m b : Nat} : AncS par a m → m ∈ par b → AncS par a b
+inductive AncS (par : α → List α) : α → α → Prop
+  | refl (a : α) : AncS par a a
+  | step {a m b : α} : AncS par a m → m ∈ par b → AncS par a b
 
 /-- parents-closed -/
-def Closed (par : Nat → List Nat) (S : List Nat) : Prop := ∀ c ∈ S, ∀ p ∈ par c, p ∈ S
+def Closed (par : α → List α) (S : List α) : Prop := ∀ c ∈ S, ∀ p ∈ par c, p ∈ S
 
 /-- `c ∈ B \ anc*(hv ∩ B)` -/
-def Needed (par : Nat → List Nat) (B hv : List Nat) (c : Nat) : Prop :=
+def Needed (par : α → List α) (B hv : List α) (c : α) : Prop :=
   c ∈ B ∧ ¬ ∃ h, h ∈ hv ∧ h ∈ B ∧ AncS par c h
 
-structure Outcome (par : Nat → List Nat) (A B D : List Nat) : Prop where
+structure Outcome (par : α → List α) (A B D : List α) : Prop where
   sound : ∀ c ∈ D, c ∈ B
   closed : ∀ c ∈ D, ∀ p ∈ par c, p ∈ D ∨ p ∈ A
   progress : (∃ c ∈ B, c ∉ A) → ∃ c ∈ D, c ∉ A
 
-structure StrictOutcome (par : Nat → List Nat) (A B hv D : List Nat) : Prop where
+structure StrictOutcome (par : α → List α) (A B hv D : List α) : Prop where
   needed : ∀ c ∈ D, Needed par B hv c
   closed : ∀ c ∈ D, ∀ p ∈ par c, Needed par B hv p → p ∈ D
   progress : (∃ c ∈ B, c ∉ A) → ∃ c ∈ D, c ∉ A
 
-theorem closed_anc {par : Nat → List Nat} {S : List Nat} (hS : Closed par S) {a b : Nat}
+theorem closed_anc {par : α → List α} {S : List α} (hS : Closed par S) {a b : α}
     (h : AncS par a b) (hb : b ∈ S) : a ∈ S := by
   induction h with
   | refl => exact hb
   | step _ hm ih => exact ih (hS _ hb _ hm)
 
 /-- the design's outcome (relative to the sample) is an outcome in the sense used here -/
-theorem StrictOutcome.outcome {par : Nat → List Nat} {A B hv D : List Nat}
+theorem StrictOutcome.outcome {par : α → List α} {A B hv D : List α}
     (hA : Closed par A) (hB : Closed par B) (hhv : ∀ h ∈ hv, h ∈ A)
     (h : StrictOutcome par A B hv D) : Outcome par A B D where
   sound c hc := (h.needed c hc).1
@@ -64,9 +67,9 @@ theorem StrictOutcome.outcome {par : Nat → List Nat} {A B hv D : List Nat}
   progress := h.progress
 
 /-- the requester's graph after ingesting a session's commands -/
-def ingest (A D : List Nat) : List Nat := A ++ D
+def ingest (A D : List α) : List α := A ++ D
 
-theorem ingest_closed {par : Nat → List Nat} {A B D : List Nat} (hA : Closed par A)
+theorem ingest_closed {par : α → List α} {A B D : List α} (hA : Closed par A)
     (h : Outcome par A B D) : Closed par (ingest A D) := by
   intro c hc p hp
   simp only [ingest, List.mem_append] at hc ⊢
@@ -77,15 +80,15 @@ theorem ingest_closed {par : Nat → List Nat} {A B D : List Nat} (hA : Closed p
     · exact Or.inl h1
 
 /-- the commands of `B` the requester lacks -/
-def missing (A B : List Nat) : List Nat := B.filter (fun c => !A.contains c)
+def missing (A B : List α) : List α := B.filter (fun c => !A.contains c)
 
-theorem mem_missing {A B : List Nat} {c : Nat} : c ∈ missing A B ↔ c ∈ B ∧ c ∉ A := by
+theorem mem_missing {A B : List α} {c : α} : c ∈ missing A B ↔ c ∈ B ∧ c ∉ A := by
   simp [missing]
 
-theorem missing_nil_iff {A B : List Nat} : missing A B = [] ↔ ∀ c ∈ B, c ∈ A := by
+theorem missing_nil_iff {A B : List α} : missing A B = [] ↔ ∀ c ∈ B, c ∈ A := by
   simp [missing, List.filter_eq_nil_iff]
 
-theorem countP_le_of_imp {l : List Nat} {p q : Nat → Bool} (h : ∀ x ∈ l, p x = true → q x = true) :
+theorem countP_le_of_imp {l : List α} {p q : α → Bool} (h : ∀ x ∈ l, p x = true → q x = true) :
     l.countP p ≤ l.countP q := by
   induction l with
   | nil => simp
@@ -96,8 +99,8 @@ theorem countP_le_of_imp {l : List Nat} {p q : Nat → Bool} (h : ∀ x ∈ l, p
     cases hp : p a <;> cases hq : q a <;> simp_all
     omega
 
-theorem countP_lt_of_imp {l : List Nat} {p q : Nat → Bool} (h : ∀ x ∈ l, p x = true → q x = true)
-    {w : Nat} (hw : w ∈ l) (hq : q w = true) (hp : p w = false) : l.countP p < l.countP q := by
+theorem countP_lt_of_imp {l : List α} {p q : α → Bool} (h : ∀ x ∈ l, p x = true → q x = true)
+    {w : α} (hw : w ∈ l) (hq : q w = true) (hp : p w = false) : l.countP p < l.countP q := by
   induction l with
   | nil => cases hw
   | cons a l ih =>
@@ -112,7 +115,7 @@ theorem countP_lt_of_imp {l : List Nat} {p q : Nat → Bool} (h : ∀ x ∈ l, p
 
 /-- **Each session delivers at least one missing command while any are missing**: the number of
 missing commands never grows and strictly shrinks while it is positive. -/
-theorem session_progress {par : Nat → List Nat} {A B D : List Nat} (h : Outcome par A B D) :
+theorem session_progress {par : α → List α} {A B D : List α} (h : Outcome par A B D) :
     (missing (ingest A D) B).length ≤ (missing A B).length ∧
     (missing A B ≠ [] → (missing (ingest A D) B).length < (missing A B).length) := by
   have himp : ∀ x ∈ B, (!(ingest A D).contains x) = true → (!A.contains x) = true := by
@@ -135,15 +138,15 @@ theorem session_progress {par : Nat → List Nat} {A B D : List Nat} (h : Outcom
 
 /-- `Run par B A n A'`: `n` consecutive sessions against the responder's graph `B` take the
 requester's graph from `A` to `A'`; every session's outcome is arbitrary within `Outcome` -/
-inductive Run (par : Nat → List Nat) (B : List Nat) : List Nat → Nat → List Nat → Prop
-  | done (A : List Nat) : Run par B A 0 A
-  | session {A D A' : List Nat} {n : Nat} :
+inductive Run (par : α → List α) (B : List α) : List α → Nat → List α → Prop
+  | done (A : List α) : Run par B A 0 A
+  | session {A D A' : List α} {n : Nat} :
       Outcome par A B D → Run par B (ingest A D) n A' → Run par B A (n + 1) A'
 
 /-- **Repeated sync delivers everything**: after `n` sessions at most `|B \ A| - n` commands of
 `B` are still missing, whatever each session chose to deliver within `Outcome`; in particular
 `|B \ A|` sessions suffice for `B ⊆ A'`. -/
-theorem sessions_converge {par : Nat → List Nat} {B A A' : List Nat} {n : Nat}
+theorem sessions_converge {par : α → List α} {B A A' : List α} {n : Nat}
     (h : Run par B A n A') :
     (missing A' B).length ≤ (missing A B).length - n ∧
     ((missing A B).length ≤ n → ∀ c ∈ B, c ∈ A') := by
@@ -162,7 +165,7 @@ theorem sessions_converge {par : Nat → List Nat} {B A A' : List Nat} {n : Nat}
   exact missing_nil_iff.mp (List.length_eq_zero_iff.mp this)
 
 /-- the requester's graph only grows, stays parents-closed, and stays within `A ∪ B` -/
-theorem run_invariants {par : Nat → List Nat} {B A A' : List Nat} {n : Nat}
+theorem run_invariants {par : α → List α} {B A A' : List α} {n : Nat}
     (hA : Closed par A) (h : Run par B A n A') :
     Closed par A' ∧ (∀ c ∈ A, c ∈ A') ∧ (∀ c ∈ A', c ∈ A ∨ c ∈ B) := by
   induction h with
@@ -180,7 +183,7 @@ theorem run_invariants {par : Nat → List Nat} {B A A' : List Nat} {n : Nat}
 /-- **Syncing in both directions until neither side receives anything makes the replicas
 converge**: if a session `A ← B` delivers nothing new to `A` and a session `B ← A` delivers nothing
 new to `B`, both hold the same command set. -/
-theorem bidirectional {par : Nat → List Nat} {A B D₁ D₂ : List Nat}
+theorem bidirectional {par : α → List α} {A B D₁ D₂ : List α}
     (h₁ : Outcome par A B D₁) (q₁ : ∀ c ∈ D₁, c ∈ A)
     (h₂ : Outcome par B A D₂) (q₂ : ∀ c ∈ D₂, c ∈ B) : ∀ c, c ∈ A ↔ c ∈ B := by
   intro c
@@ -197,7 +200,7 @@ theorem bidirectional {par : Nat → List Nat} {A B D₁ D₂ : List Nat}
     exact hwn (q₁ w hw)
 
 /-- a session `A ← B` does not change what `B` lacks of `A` -/
-theorem missing_other_unchanged {par : Nat → List Nat} {A B D : List Nat} (h : Outcome par A B D) :
+theorem missing_other_unchanged {par : α → List α} {A B D : List α} (h : Outcome par A B D) :
     missing B (ingest A D) = missing B A := by
   simp only [missing, ingest, List.filter_append]
   have : List.filter (fun c => !B.contains c) D = [] := by
@@ -209,7 +212,7 @@ theorem missing_other_unchanged {par : Nat → List Nat} {A B D : List Nat} (h :
 /-- one round of bidirectional sync (`A ← B`, then `B ← A'`): the total number of commands either
 side lacks strictly decreases unless the replicas already hold the same commands — so syncing both
 ways reaches quiescence, where `bidirectional` applies, after at most `|B \ A| + |A \ B|` rounds -/
-theorem round_progress {par : Nat → List Nat} {A B D₁ D₂ : List Nat}
+theorem round_progress {par : α → List α} {A B D₁ D₂ : List α}
     (h₁ : Outcome par A B D₁) (h₂ : Outcome par B (ingest A D₁) D₂) :
     (missing (ingest A D₁) (ingest B D₂)).length + (missing (ingest B D₂) (ingest A D₁)).length
         ≤ (missing A B).length + (missing B A).length ∧
